@@ -288,6 +288,40 @@ def region_step_targets():
 
 TARGETS += region_step_targets()
 
+def region_o_targets():
+    R = "pixman/pixman-region32.c"
+    common = dict(kind="step", file=R, mode="mixed", stub=("pixman/pixman-region.c", ["NEWRECT"]), emits={"NEWRECT": 2},
+                  ignore_calls=["_pixman_log_error"], cursors=["r1", "r2"], ptrvals=["r1_end", "r2_end"])
+    return [
+        dict(common, func="pixman_region_intersect_o", name="region32_intersect_o_step", loop=0, expect=["r1", "x2"]),
+        dict(common, func="pixman_region_union_o", name="region32_union_o_both_step", loop=0, expect=["r1", "r2", "x2"]),
+        dict(common, func="pixman_region_union_o", name="region32_union_o_r1_step", loop=1, expect=["r1", "x2"]),
+        dict(common, func="pixman_region_union_o", name="region32_union_o_r2_step", loop=2, expect=["r2", "x2"]),
+        dict(common, func="pixman_region_subtract_o", name="region32_subtract_o_step", loop=0, expect=["r1", "r2", "x1"]),
+        dict(common, func="pixman_region_subtract_o", name="region32_subtract_o_tail_step", loop=1, expect=["r1", "x1"]),
+    ]
+
+
+TARGETS += region_o_targets()
+
+def region_misc_targets():
+    R = "pixman/pixman-region32.c"
+    ext = {"region->extents.x1": ("ext_x1", "int32_t"), "region->extents.y1": ("ext_y1", "int32_t"),
+           "region->extents.x2": ("ext_x2", "int32_t"), "region->extents.y2": ("ext_y2", "int32_t")}
+    src = "(*(box_type_t *)(region->data + 1))"
+    one = dict(ext)
+    for f in ("x1", "y1", "x2", "y2"):
+        one[f"{src}.{f}"] = (f"box0_{f}", "unchecked int32_t")
+    one["region->data"] = ("data_ptr", "ptr")
+    one["region->data->size"] = ("data_size", "long")
+    return [
+        dict(kind="step", file=R, func="pixman_region32_translate", name="region32_translate_single", then_of_if=9,
+             mode="mixed", mem=one, copy_fields=["x1", "y1", "x2", "y2"], ignore_calls=["free"], expect=["numRects"]),
+    ]
+
+
+TARGETS += region_misc_targets()
+
 LEAN_KEYWORDS = {"at", "from", "end", "open", "show", "have", "fun", "let", "then", "do", "in", "if", "else", "by",
                  "at", "with", "match", "where", "for", "def", "theorem", "instance", "structure", "class", "namespace",
                  "section", "import", "mut", "return", "repeat", "calc", "using", "from", "Type", "Prop", "Sort",
@@ -349,7 +383,30 @@ def stub_combine32_header(repo, scratch, names):
     return d
 
 
-def preprocess(repo, rel, scratch, defs=(), keep_macros=None):
+def stub_source(repo, scratch, rel_main, stub):
+    """copies of the translation unit and of the file it includes, the latter without the #defines of the listed
+    function-like macros (their uses survive preprocessing as calls)"""
+    inc_rel, names = stub
+    d = scratch / ("stub_" + re.sub(r"\W", "_", rel_main))
+    d.mkdir(exist_ok=True)
+    text = (Path(repo) / inc_rel).read_text()
+    out, skipping = [], False
+    for line in text.split("\n"):
+        if skipping:
+            skipping = line.rstrip().endswith("\\")
+            continue
+        m = re.match(r"\s*#\s*define\s+(\w+)\s*\(", line)
+        if m and m.group(1) in names:
+            skipping = line.rstrip().endswith("\\")
+            continue
+        out.append(line)
+    (d / Path(inc_rel).name).write_text("\n".join(out))
+    cpy = d / Path(rel_main).name
+    cpy.write_text((Path(repo) / rel_main).read_text())
+    return cpy
+
+
+def preprocess(repo, rel, scratch, defs=(), keep_macros=None, stub=None):
     inc = scratch / "inc"
     if not inc.exists():
         inc.mkdir()
@@ -363,7 +420,9 @@ def preprocess(repo, rel, scratch, defs=(), keep_macros=None):
         fail(f"{rel}: no such file")
     cmd = ["gcc", "-E", "-P", "-DHAVE_CONFIG_H", "-DPIXMAN_VERIF", "-I", str(inc), "-I", str(Path(repo) / "pixman")]
     cmd += list(defs)
-    if keep_macros is not None:
+    if stub is not None:
+        cmd.append(str(stub_source(repo, scratch, rel, stub)))
+    elif keep_macros is not None:
         d = stub_combine32_header(repo, scratch, keep_macros)
         cpy = d / Path(rel).name
         cpy.write_text(src.read_text())
@@ -918,7 +977,17 @@ class Parser:
             self.eat()
             self.eat("op", ";")
             return ("continue",)
-        if k == "id" and v in ("goto", "case", "default"):
+        if k == "id" and v == "goto":
+            self.eat()
+            lab = self.eat("id")
+            self.eat("op", ";")
+            return ("goto", lab)
+        if k == "id" and self.peek(1) == ("op", ":") and self.peek(2) != ("op", ":") and not self.env.is_type_start(v) \
+                and v not in ("case", "default"):
+            self.eat()
+            self.eat()
+            return ("label", v)
+        if k == "id" and v in ("case", "default"):
             fail(f"statement `{v}` is not supported")
         if k == "id" and v == "__verif_assert":
             self.eat()
@@ -3099,8 +3168,16 @@ class StepLower:
     write -> `<name>_wr_index = E; <name>_wr_value = v; <name>_wr_done = 1`; `p = &array[E]` makes `*p` such an
     operand."""
 
-    def __init__(self, fn, arrays, ptr_aliasable):
+    def __init__(self, fn, arrays, ptr_aliasable, cursors=(), emits=None, ignore=()):
         self.fn, self.arrays, self.aliasable = fn, arrays, ptr_aliasable
+        self.cursors = set(cursors)     # pointer variables stepping through an array of structs
+        self.ver = {c: 0 for c in self.cursors}     # None = differs between joined branches
+        self.cursor_vars = {}           # generated variable -> (cursor, version, member)
+        self.cursor_written = set()
+        self.emits = emits or {}        # macro kept as a call -> number of leading arguments to skip
+        self.nemit = 0
+        self.ignore = set(ignore)
+        self.copy_fields = ()           # members copied by a struct assignment `a = *p`
         self.reads = {}          # array name -> list of (index AST, content variable)
         self.alias = {}          # pointer local -> (array name, index AST)
         self.nread = 0
@@ -3121,7 +3198,20 @@ class StepLower:
         for nm in self.reads:
             self.reads[nm] = [(ix, v) for ix, v in self.reads[nm] if not mentions(ix, ("id", var))]
 
+    def cfield(self, e):
+        """`cur->f` for a cursor: the variable standing for member f of the element cur points to now"""
+        if e[0] == "field" and e[1][0] == "id" and e[1][1] in self.cursors:
+            c = e[1][1]
+            if self.ver[c] is None:
+                fail(f"{self.fn}: {c}->{e[2]} after branches that advance {c} differently")
+            v = f"{c}{'n' * self.ver[c]}_{e[2]}"
+            self.cursor_vars[v] = (c, self.ver[c], e[2])
+            return ("id", v)
+        return None
+
     def asg(self, var, e):
+        if var in self.cursors and self.ver[var] is not None:
+            self.ver[var] += 1
         self.invalidate(var)
         return ("expr", ("assign", "=", ("id", var), e))
 
@@ -3130,6 +3220,9 @@ class StepLower:
         if not isinstance(e, tuple) or not e or e[0] in ("num", "id", "sizeof"):
             return [], e, []
         k = e[0]
+        cf = self.cfield(e)
+        if cf is not None:
+            return [], cf, []
         if k == "postinc" and e[2][0] == "id":
             one = ("num", (1, "", False))
             return [], e[2], [self.asg(e[2][1], ("bin", e[1], e[2], one))]
@@ -3206,6 +3299,10 @@ class StepLower:
         return pre, tuple(parts), post
 
     def expr_lvalue(self, lv):
+        cf = self.cfield(lv)
+        if cf is not None:
+            self.cursor_written.add(cf[1])
+            return [], cf, []
         return [], lv, []
 
     def read(self, nm, ev):
@@ -3236,18 +3333,42 @@ class StepLower:
             for x in st[1]:
                 out += self.stmt(x)
             return [("block", out)]
+        if k == "expr" and st[1][0] == "call" and st[1][1] in self.ignore:
+            return []
+        if k == "expr" and st[1][0] == "assign" and st[1][1] == "=" and self.copy_fields and \
+                st[1][3][0] == "deref" and st[1][2][0] == "field":
+            out = []
+            for f in self.copy_fields:
+                out += self.stmt(("expr", ("assign", "=", ("field", st[1][2], f), ("field", st[1][3], f))))
+            return out
+        if k == "expr" and st[1][0] == "call" and st[1][1] in self.emits:
+            args = st[1][2][self.emits[st[1][1]]:]
+            self.nemit += 1
+            pre, post, out = [], [], []
+            for i, a in enumerate(args):
+                p1, v1, q1 = self.expr(a)
+                pre += p1
+                post += q1
+                nm = f"new{self.nemit}_{i}"
+                self.pseudo[nm] = "emit"
+                out.append(self.asg(nm, v1))
+            self.pseudo[f"new{self.nemit}_done"] = "flag"
+            return pre + out + [self.asg(f"new{self.nemit}_done", ("num", (1, "", False)))] + post
         if k == "expr":
             pre, v, post = self.expr(st[1])
             keep = [("expr", v)] if side_effect(v) else []
             return pre + keep + post
         if k == "if":
             pre, v = self.cond(st[1])
-            saved = ({n: list(l) for n, l in self.reads.items()}, dict(self.alias))
+            saved = ({n: list(l) for n, l in self.reads.items()}, dict(self.alias), dict(self.ver))
             a = self.stmt(st[2])
             ra = self.reads
+            va = self.ver
             self.reads, self.alias = {n: list(l) for n, l in saved[0].items()}, dict(saved[1])
+            self.ver = dict(saved[2])
             b = self.stmt(st[3]) if st[3] is not None else []
             rb = self.reads
+            self.ver = {c: (va[c] if va[c] == self.ver[c] else None) for c in self.ver}
             self.reads = {n: [x for x in ra.get(n, []) if x in rb.get(n, [])] for n in ra}
             return pre + [("if", v, ("block", a), ("block", b) if st[3] is not None else None)]
         if k == "return":
@@ -3305,7 +3426,9 @@ def translate_step(env, tgt, funcs):
         q = Parser(lex(cexpr), env)
         arrays.append((q.expr(), nm))
     aliasable = {d[2] for d in decls if d[1][1] >= 1 and d[2] not in tgt.get("ptrlocals", [])}
-    low = StepLower(name, arrays, aliasable)
+    low = StepLower(name, arrays, aliasable, cursors=tgt.get("cursors", ()), emits=tgt.get("emits"),
+                    ignore=tgt.get("ignore_calls", ()))
+    low.copy_fields = tuple(tgt.get("copy_fields", ()))
     pre_alias = {}
     for pl, arrname in tgt.get("aliases", {}).items():
         # a pointer local set before the extracted statements: `*p` is the array element with index `<p>_index`
@@ -3352,6 +3475,31 @@ def translate_step(env, tgt, funcs):
                 fail(f"{name}: if #{tgt['cond_of_if']} does not mention {w} (the numbering changed?)")
         pre, cv = low.cond(c)
         stmts = pre + [("if", cv, ("return", CONT), None), ("return", EXIT)]
+    elif "then_of_if" in tgt:
+        ifs = []
+
+        def find_ifs2(st):
+            if isinstance(st, tuple):
+                if st and st[0] == "if":
+                    ifs.append(st)
+                for x in st[1:]:
+                    if isinstance(x, tuple):
+                        find_ifs2(x)
+                    elif isinstance(x, list):
+                        for y in x:
+                            find_ifs2(y)
+        find_ifs2(blk)
+        if tgt["then_of_if"] >= len(ifs):
+            fail(f"{name}: has only {len(ifs)} if statements")
+        node = ifs[tgt["then_of_if"]]
+        for w in tgt.get("expect", []):
+            if not mentions_id(node[1], w):
+                fail(f"{name}: if #{tgt['then_of_if']} does not mention {w} (the numbering changed?)")
+        body = node[2][1] if node[2][0] == "block" else [node[2]]
+        stmts = []
+        for x in [fixret(y) for y in body]:
+            stmts += low.stmt(x)
+        stmts.append(("return", EXIT))
     elif "stmts" in tgt:
         i, j = tgt["stmts"]
         body = [fixret(x) for x in blk[1][i:j]]
@@ -3400,6 +3548,19 @@ def translate_step(env, tgt, funcs):
     for v, kind in low.pseudo.items():
         types[v] = {"index": UINT, "flag": UINT, "tmp": UINT, "cond": INT}.get(kind, ULONG)
     types.update(pre_alias)
+    roots0 = {pn: (pt, pnp) for pn, pt, pnp in params}
+    for d in decls:
+        roots0[d[2]] = d[1]
+    for c in tgt.get("cursors", ()):
+        types[c] = ULONG                # element index
+    for v, (c, ver, f) in low.cursor_vars.items():
+        t = env.path_type(("field", ("id", c), f), roots0)
+        if t[1] or t[2] or not isinstance(t[0], CT):
+            fail(f"{name}: {c}->{f} is not an integer member")
+        types[v] = t[0]
+    for v, kind in low.pseudo.items():
+        if kind == "emit":
+            types[v] = tgt.get("emit_type") and env.resolve(tgt["emit_type"].split()) or INT
     roots = {pn: (pt, pnp) for pn, pt, pnp in params}
     for d in decls:
         roots[d[2]] = d[1]
@@ -3411,7 +3572,7 @@ def translate_step(env, tgt, funcs):
             tr.vars[v] = t
             kind = low.pseudo.get(v)
             if kind in (None, "content"):
-                tr.defined.add(v)           # inputs: loop state and array contents
+                tr.defined.add(v)           # inputs: loop state, array contents, members of the elements under the cursors
             if v in tgt.get("ptrvals", []) or v in tgt.get("ptrlocals", []):
                 pass
         for cexpr, spec in tgt.get("mem", {}).items():
@@ -3423,6 +3584,8 @@ def translate_step(env, tgt, funcs):
                 t = env.path_type(mast, roots)
                 if not (t[1] >= 1 and t[2] == 0):
                     fail(f"{name}: memory operand {cexpr!r} is not a pointer")
+            elif tyname.startswith("unchecked "):
+                cty = env.resolve(tyname.split()[1:])
             else:
                 cty = env.resolve(tyname.split())
                 t = env.path_type(mast, roots)
@@ -3434,7 +3597,7 @@ def translate_step(env, tgt, funcs):
         # write flags start at 0
         return tr
     inits = [("expr", ("assign", "=", ("id", v), ("num", (0, "", False)))) for v, kind in low.pseudo.items()
-             if kind in ("flag",)] + \
+             if kind in ("flag", "emit")] + \
             [("expr", ("assign", "=", ("id", v), ("num", (0, "", False)))) for v, kind in low.pseudo.items()
              if kind in ("index", "value") and v.endswith(("_wr_index", "_wr_value"))]
     # declarations met again inside the step must not clash with the registered variables
@@ -3469,6 +3632,7 @@ def translate_step(env, tgt, funcs):
     sig = ", ".join(f"{v} : {allv[v].cname()}" for v in ins)
     res = ", ".join(["status : 0 loop ends / 1 next iteration / 2.. n-th return"] + [f"{o} : {allv[o].cname()}" for o in outs])
     what = (f"condition of if #{tgt['cond_of_if']} (status 1 = true)" if "cond_of_if" in tgt else
+            f"then-branch of if #{tgt['then_of_if']}" if "then_of_if" in tgt else
             f"statements {tgt['stmts']}" if "stmts" in tgt else f"one iteration of loop #{tgt['loop']}")
     fi.text = (f"/-- `{tgt['file']}:{name}`, {what} ({tr.mode} mode).  Arguments: {sig}.  Result: ({res}). -/\n"
                f"def {fi.lean} {args} : {rty} :=\n{Body.ind(None, text)}\n")
@@ -3517,14 +3681,15 @@ def main():
         chunks = []
         xm = None
         for tgt in TARGETS:
-            key = (tgt["file"], tuple(tgt.get("defs", ())), bool(tgt.get("xmacros")))
+            key = (tgt["file"], tuple(tgt.get("defs", ())), bool(tgt.get("xmacros")), repr(tgt.get("stub")))
             if tgt.get("xmacros"):
                 if xm is None:
                     xm = combine32_macros(repo)
                 tgt = dict(tgt, _xmacros=xm)
             if key not in envs:
                 envs[key] = Env(preprocess(repo, tgt["file"], scratch, tgt.get("defs", ()),
-                                           keep_macros=set(xm) if tgt.get("xmacros") else None))
+                                           keep_macros=set(xm) if tgt.get("xmacros") else None,
+                                           stub=tgt.get("stub")))
             env = envs[key]
             if tgt.get("kind") == "cond":
                 fi = translate_condition(env, tgt)
